@@ -1,6 +1,9 @@
 /* Native replay for C06 (PDU HMAC).  Calls the REAL library through its public API and compares with an
  * independent HMAC (OpenSSL HMAC()) over the byte range defined in spec/hmac.h.  No counterexample values are
  * needed: the failing obligations are structural, so the driver enumerates a neighbourhood:
+ *   T0  KSI_HMAC_create and the incremental KSI_HmacHasher_open/add/close on a plain message, keys of B-1, B, B+1 bytes
+ *       for both block sizes B = 64 / 128 (RFC 2104: only a key LONGER than the block is hashed first) and some others:
+ *       digest == OpenSSL HMAC()                                                    [jobs C06.hmac_create*]
  *   T1  request PDUs (aggregator / extender, PDU v1 / v2, every trusted MAC algorithm, keys shorter, equal and
  *       longer than the hash block): the MAC inside the serialized request == independent HMAC over the range
  *   T2  KSI_*Pdu_calculateHmac with an algorithm whose digest is longer than the serialized PDU: the v2 range is
@@ -80,6 +83,31 @@ static int mac_ok(int ver, int alg, const char *key, const unsigned char *raw, s
 		l = ref_hmac(alg, key, buf, hn + pn, exp);
 		return l == hl && mn == 2 + 1 + hl && m[2] == alg && memcmp(exp, m + 3, hl) == 0;
 	}
+}
+
+static void t0_hmac(void) {
+	static const int algs[] = { KSI_HASHALG_SHA2_256, KSI_HASHALG_RIPEMD160, KSI_HASHALG_SHA2_384, KSI_HASHALG_SHA2_512 };
+	static const size_t keylens[] = { 1, 32, 63, 64, 65, 96, 127, 128, 129, 256 };
+	static const size_t msglens[] = { 0, 1, 64, 200 };
+	unsigned a, k, m; KSI_CTX *ctx = NULL; unsigned char msg[200]; size_t i;
+	for (i = 0; i < sizeof(msg); i++) msg[i] = (unsigned char)(i * 13 + 5);
+	KSI_CTX_new(&ctx);
+	for (a = 0; a < 4; a++) for (k = 0; k < 10; k++) for (m = 0; m < 4; m++) {
+		char *key = mk_key(keylens[k]); unsigned char exp[64]; unsigned l = ref_hmac(algs[a], key, msg, msglens[m], exp); unsigned hl = KSI_getHashLength(algs[a]);
+		KSI_DataHash *h = NULL; KSI_HmacHasher *hh = NULL; const unsigned char *d = NULL; size_t dl = 0; int alg = -1; int res;
+		res = KSI_HMAC_create(ctx, algs[a], key, msg, msglens[m], &h);
+		if (res != KSI_OK || KSI_DataHash_extract(h, &alg, &d, &dl) != KSI_OK || alg != algs[a] || dl != hl || l != hl || memcmp(d, exp, hl) != 0)
+			REPORT("T0 KSI_HMAC_create(alg=%d, key of %zu bytes, message of %zu bytes): res=0x%x, digest differs from the independent HMAC", algs[a], keylens[k], msglens[m], res);
+		KSI_DataHash_free(h); h = NULL; d = NULL; dl = 0;
+		res = KSI_HmacHasher_open(ctx, algs[a], key, &hh);
+		if (res == KSI_OK && msglens[m] > 1) { res = KSI_HmacHasher_add(hh, msg, 1); if (res == KSI_OK) res = KSI_HmacHasher_add(hh, msg + 1, msglens[m] - 1); }
+		else if (res == KSI_OK) res = KSI_HmacHasher_add(hh, msg, msglens[m]);
+		if (res == KSI_OK) res = KSI_HmacHasher_close(hh, &h);
+		if (res != KSI_OK || KSI_DataHash_extract(h, &alg, &d, &dl) != KSI_OK || alg != algs[a] || dl != hl || l != hl || memcmp(d, exp, hl) != 0)
+			REPORT("T0 KSI_HmacHasher open/add/add/close(alg=%d, key of %zu bytes, message of %zu bytes): res=0x%x, digest differs from the independent HMAC", algs[a], keylens[k], msglens[m], res);
+		KSI_DataHash_free(h); KSI_HmacHasher_free(hh); free(key);
+	}
+	KSI_CTX_free(ctx);
 }
 
 static void t1_requests(void) {
@@ -230,6 +258,7 @@ static void t3_t4_responses(void) {
 
 int main(int argc, char **argv) {
 	rp_init(argc, argv);
+	t0_hmac();
 	t1_requests();
 	t2_short_pdu();
 	t3_t4_responses();
